@@ -151,20 +151,23 @@ def Skeleton.maxCnt (sk : Skeleton) : Nat := sk.allSites.foldl (fun a s => max a
 def Skeleton.cutK (sk : Skeleton) : Nat :=
   sk.allSites.foldl (fun a s => match cutBound s with | some k => max a k | none => a) 0
 
-/-- sites the code enters WITHOUT raising the counter (identified by call path and type argument);
-    their edges are not counted, on the model side and on the exported programs alike -/
-def sameDepthSites : List (String × String) := [
-  ("gen_func_call>_gen_func_call", "type_fun.receiver_t"),          -- receiver of a method call
-  ("gen_assignment", "var_decl.get_type()"),                        -- right-hand side of an assignment
-  ("gen_assignment", "variable.get_type()"),
-  ("gen_array_expr", "etype"),                                      -- array elements
-  ("gen_new>_gen_func_ref_lambda>_gen_func_ref", "type_fun.receiver_t"),  -- receiver of a function reference
-  ("gen_variable", "etype"),                                        -- no variable in scope: the expression itself
-  ("gen_is_expr", "expr_type")]                                     -- no final variable: the expression itself (leaves only)
+/-- sites the code enters WITHOUT raising the counter (identified by call path, type argument and
+    `only_leaves` argument as written); their edges are not counted, on the model side and on the
+    exported programs alike.  The bound does not need this list (it counts raised-counter edges only):
+    the list makes every NEW same-depth site — e.g. a `self.depth += 1` that was removed — a failure of
+    `SkeletonOK`, because each one adds a family of chains that end with probability 1 only. -/
+def sameDepthSites : List (String × String × String) := [
+  ("gen_func_call>_gen_func_call", "type_fun.receiver_t", "pass"),          -- receiver of a method call
+  ("gen_assignment", "var_decl.get_type()", "pass"),                        -- right-hand side of an assignment
+  ("gen_assignment", "variable.get_type()", "pass"),
+  ("gen_array_expr", "etype", "pass"),                                      -- array elements
+  ("gen_new>_gen_func_ref_lambda>_gen_func_ref", "type_fun.receiver_t", "pass"),  -- receiver of a function reference
+  ("gen_variable", "etype", "pass"),                                        -- no variable in scope: the expression itself
+  ("gen_is_expr", "expr_type", "True")]                                     -- no final variable: the expression itself (leaves only)
 
 def genSiteOK (C : Nat) (s : FSite) : Bool :=
   s.void == "no" && decide (s.cnt ≤ s.off) && decide (s.cnt ≤ C) &&
-  (s.cnt != 0 || sameDepthSites.contains (s.path, s.targ))
+  (s.cnt != 0 || sameDepthSites.contains (s.path, s.targ, s.ol))
 
 /-- in a leaf generator: never `only_leaves=False`, and a raised-counter recursion is cut -/
 def leafSiteOK (K : Nat) (s : FSite) : Bool :=
